@@ -725,6 +725,14 @@ int64_t evaluate_array_ref(
             // 文字列配列の場合は文字列として取得してから数値変換
             // 通常、これは printf等で文字列として処理されるべきだが、
             // int64_t を要求される場面では 0 を返す
+            // (every index has to lie inside its own dimension first, as
+            // for the numeric arrays below)
+            for (size_t d = 0;
+                 d < indices.size() && d < var->array_dimensions.size(); d++) {
+                if (indices[d] < 0 || indices[d] >= var->array_dimensions[d]) {
+                    throw std::runtime_error("Array index out of bounds");
+                }
+            }
             return 0;
         }
         // 数値多次元配列の場合
